@@ -410,8 +410,13 @@ func (h *Heap[T]) ghostRootMin() {
 //@   ensures len(h.data) == old(len(h.data)) + 1 && hpPairs(h, -1, -1)
 
 // Pop: removes and returns the root - a minimum of what the heap held; heap order kept.
+// (With an index assigner installed, Pop tells it about BOTH elements that changed place: the
+// removed one and the one moved to the root.)
 //@ func Heap.Pop
 //@   property C19 C10
+//@   ensures result1 && h.assignIndex != nil ==> ncalled(assignIndex) == 2
+//@   atcall assignIndex@0: arg1 == -1
+//@   atcall assignIndex@1: arg1 == 0
 //@   requires hpCmp(h) && hpPairs(h, -1, -1)
 //@   apply h.ghostRootMin()
 //@   modifies h.data
